@@ -77,14 +77,14 @@ IdSeq   == <<NoId, "c1", "c2">>
 \* other list, nested prefixes, /0, a full-length prefix equal to a listed
 \* address, the same bits in the other family.
 ClientFamily ==
-    { Ip("v4", <<0,1,0,1>>), Ip("v4", <<1,1,0,0>>),
-      Cidr("v4", <<0,1>>), Cidr("v4", <<1>>), Cidr("v4", <<>>),
+    { Ip("v4", <<0,1,0,1>>), IpM(<<1,1,0,0>>),
+      Cidr("v4", <<0,1>>), CidrM(<<1>>), Cidr("v4", <<>>),
       Cidr("v4", <<0,1,0,1>>), IdM("c1"),
       Ip("v6", <<0,1,0,1>>), Ip("v6", <<0,0,1,1>>),
       Cidr("v6", <<0,1>>), Cidr("v6", <<>>), Cidr("v6", <<0,0,1,1>>),
       Id("c1"), Id("c2") }
 
-McFamily == { Ip("v4", <<0,1,0,1>>), Id("c1"), IdM("c1") }
+McFamily == { IpM(<<0,1,0,1>>), Id("c1"), IdM("c1") }
 
 \* Names.  "xa" is a label that ends like "a" (look-alike: xa.com must not be
 \* caught by a pattern for a.com).
@@ -95,7 +95,9 @@ NameSeq ==
        <<"a","b","com">>, <<"b","b","a","com">>, <<"b","a","org">>,
        <<"com">>, <<"org">>, <<"a","com","org">>, <<"b","a","com","org">>,
        <<"a","b","a","com","org">>,
-       <<"version","bind">>, <<"b","version","bind">> >>
+       <<"version","bind">>, <<"b","version","bind">>,
+       \* "ar" = "ads" + non-digits ("adsrv"), "a1" = "ads" + a digit ("ads1")
+       <<"ar","com">>, <<"a1","com">> >>
 
 
 \* Query types of the universes (order of the emitted table).
@@ -109,6 +111,8 @@ HostPatterns ==
       \cup {PatT("domain", ACom, "AAAA"), PatT("domain", ACom, "MX"),
             PatT("wild", ACom, "A"), PatT("domain", <<"com">>, "TXT"),
             PatT("all", <<>>, "HTTPS")}
+      \* regular-expression rules
+      \cup {Pat("re", <<"nondigit">>), Pat("re", <<"capital">>), Pat("re", <<"named">>)}
 
 McPatterns == {Pat("exact", ACom), Pat("wild", ACom), PatT("domain", ACom, "AAAA")}
 
@@ -141,7 +145,7 @@ McNames == {ACom, <<"b","a","com">>, <<"version","bind">>}
 McRequests ==
     { [addr |-> af[1], form |-> af[2], id |-> c, idcase |-> ic, name |-> n,
        spell |-> "plain", qtype |-> q, proto |-> p] :
-        af \in McAddrForms, c \in {NoId, "c1", "c2"}, ic \in {"lower", "mixed"},
+        af \in McAddrForms, c \in {NoId, "c1", "c2", BadId}, ic \in {"lower", "mixed"},
         n \in McNames, q \in {"A", "AAAA"}, p \in Protos }
 Requests ==
     {r \in McRequests : /\ (r.id # NoId => r.proto \in IdProtos)
@@ -150,7 +154,8 @@ Requests ==
                         /\ (r.qtype = "AAAA" => r.name = ACom /\ r.form # "plain")
                         /\ (r.name = <<"version","bind">> => r.qtype = "A" /\ r.id = NoId /\ r.form = "mapped")
                         /\ (r.form = "plain" => r.name = ACom /\ r.id = NoId /\ r.qtype = "A")
-                        /\ (r.id = "c2" => r.proto = "https" /\ r.qtype = "A")}
+                        /\ (r.id = "c2" => r.proto = "https" /\ r.qtype = "A")
+                        /\ (r.id = BadId => r.proto = "tls" /\ r.qtype = "A" /\ r.form = "mapped")}
 
 \* ----------------------------------------------------------------- behaviour
 NoLast  == [out |-> "none"]
@@ -163,8 +168,8 @@ Code(v) == IF v = {TRUE} THEN 1 ELSE IF v = {FALSE} THEN 0 ELSE 2
 \* Client table, address-major: entry (a, c).
 ExTable(c) ==
     [j \in 1..(Len(AddrSeq) * Len(IdSeq)) |->
-        Code(ExcludedSet(c, AddrSeq[((j - 1) \div Len(IdSeq)) + 1],
-                            IdSeq[((j - 1) % Len(IdSeq)) + 1]))]
+        Code({Excluded(c, AddrSeq[((j - 1) \div Len(IdSeq)) + 1],
+                          IdSeq[((j - 1) % Len(IdSeq)) + 1])})]
 
 \* Name table, name-major: entry (n, q).
 HostTable(c) ==
@@ -273,17 +278,19 @@ LoadedDefaults ==
 \* "... is never resolved, filtered, logged or counted: over UDP and DNSCrypt
 \*  it gets no reply at all, over every other transport only REFUSED."
 ExcludedNeverServed ==
-    HasLast /\ Excluded(cfg, last.req.addr, last.req.id) =>
+    HasLast /\ last.req.id # BadId /\ Excluded(cfg, last.req.addr, last.req.id) =>
         last.out = Denial(last.req.proto)
 BlockedNameNeverServed ==
-    HasLast /\ (\E p \in cfg.hosts : OnListBy(p, last.req.name, last.req.qtype)) =>
+    HasLast /\ last.req.id # BadId
+            /\ (\E p \in cfg.hosts : OnListBy(p, last.req.name, last.req.qtype)) =>
         last.out = Denial(last.req.proto)
 SilentOnDatagram ==
     HasLast => /\ (last.out = "drop"    => last.req.proto \in SilentProto)
                /\ (last.out = "refused" => last.req.proto \notin SilentProto)
+               /\ (last.out = "servfail" => last.req.id = BadId)
 \* "All other requests are served."
 OthersServed ==
-    HasLast /\ Admitted(cfg, last.req.addr, last.req.id)
+    HasLast /\ last.req.id # BadId /\ Admitted(cfg, last.req.addr, last.req.id)
             /\ (\A p \in cfg.hosts : /\ ~OnListBy(p, last.req.name, last.req.qtype)
                                       /\ ~Undetermined(p, last.req.name, last.req.qtype))
         => last.out = "served"
@@ -307,7 +314,7 @@ AllIds   == {IdSeq[j] : j \in 1..Len(IdSeq)}
 AllowModeIgnoresDisallowed ==
     cfg.allowed # {} =>
         \A a \in AllAddrs, c \in AllIds :
-            ExcludedSet(cfg, a, c) = ExcludedSet([cfg EXCEPT !.disallowed = {}], a, c)
+            Excluded(cfg, a, c) = Excluded([cfg EXCEPT !.disallowed = {}], a, c)
 \* Allow-list mode made of ClientIDs only: a request without ClientID is out,
 \* whatever its address.
 OnlyIdsAllowedExcludesAnonymous ==
@@ -324,12 +331,20 @@ BlockModeOneMatchSuffices ==
 EmptyListsExcludeNobody ==
     (cfg.allowed = {} /\ cfg.disallowed = {}) =>
         \A a \in AllAddrs, c \in AllIds : Admitted(cfg, a, c)
-\* An entry in another letter case is the only source of indeterminacy of the
-\* client decision.
-OnlyRespelledIdsAreOpen ==
+\* How an entry is written (letter case of a ClientID, 4-in-6 form of an IPv4
+\* address or prefix) is irrelevant.
+Plain(e) == [e EXCEPT !.sp = "lower"]
+EntrySpellingIrrelevant ==
     \A a \in AllAddrs, c \in AllIds :
-        ExcludedSet(cfg, a, c) = {TRUE, FALSE} =>
-            \E e \in cfg.allowed \cup cfg.disallowed : EntryMayHaveId(e, c)
+        Excluded(cfg, a, c) =
+            Excluded([cfg EXCEPT !.allowed = {Plain(e) : e \in cfg.allowed},
+                                 !.disallowed = {Plain(e) : e \in cfg.disallowed}], a, c)
+\* An invalid ClientID label is never served; it may be answered by the
+\* denial only where the denial is due anyway.
+InvalidIdNeverServed ==
+    (HasLast /\ last.req.id = BadId) =>
+        /\ last.out # "served"
+        /\ (last.out # "servfail" => TRUE \in Denied(cfg, last.req))
 
 \* Action properties: a denied request moves none of the observers, a served
 \* one moves each of them, a reconfiguration moves none.
